@@ -21,6 +21,11 @@ CHECKS = {
          "property-based testing (rapid): reference-model comparison plus model-free subsequence/conservation invariant over remaining arguments",
          "Generated search over argv rich in pass-through tokens under all 8 combinations of PassDoubleDash/PassAfterNonOption/IgnoreUnknown; remaining args, positional fields and the args seen by Execute/CommandHandler are compared with R, and - when positionals are strings - a model-free subsequence + token-count conservation check is applied.",
          RNOTE, "DESIGN.md §4 C03"),
+ "C04": ("exploration",
+         "property-based testing (rapid) with hostile structured argv plus native coverage-guided fuzzing (go test -fuzz) of raw byte argv; oracle: no panic/hang, reference error typing, fd-level stdout/stderr capture",
+         "Generated search over declarations (every option type, choices on flags) x hostile argv x all 32 parser option sets, and (thorough) a 90 s 16-core coverage-guided fuzz campaign feeding arbitrary bytes as argv to 12 fixed rich declarations. Every call must return (recover + 20 s watchdog), errors must be *flags.Error of the type R attributes (weak documented-type rule where R is undetermined or on raw fuzz input), and fds 1/2 captured at descriptor level must be empty without PrintErrors and carry exactly the error text once on the right stream with it.",
+         RNOTE + "; never-hangs is bounded by a watchdog, not proved; process termination (os.Exit) would surface as an inconclusive run, not a violation",
+         "DESIGN.md §4 C04"),
  "C06": ("exploration",
          "property-based testing (rapid): reference missing-set vs names parsed from ErrRequired messages",
          "Generated search over required marks at every tree level, positional count constraints and argv/env/default supply subsets; ErrRequired must occur exactly when R finds something missing, name exactly R's set, and nothing may be executed.",
@@ -41,6 +46,11 @@ CHECKS = {
          "property-based testing (rapid): positional binding compared with a reference semantics",
          "Generated search over positional layouts on parser and commands and argv interleaving typed tokens, options and the terminator; every positional field and the overflow into remaining args are compared with R.",
          RNOTE, "DESIGN.md §4 C10"),
+ "C17": ("exploration",
+         "property-based testing (rapid): structural layout predicates over help rendered at generated terminal widths through a real pseudo-terminal",
+         "Generated search over names in five scripts, descriptions with long words/newlines/blank paragraphs, nesting and terminal widths 1..400 (real pty on fd 0); the rendered help must not panic, be valid UTF-8, start all descriptions in one column (characters), indent continuation lines to it, conserve the words in order, and respect the width when >= 10 columns remain.",
+         "column and width are measured in characters (the unit the library's own alignment uses); tabs inside descriptions and '-' inside description words are not generated (hyphen at line end is then unambiguously a hard break); requires /dev/ptmx, otherwise cases are skipped and counted",
+         "DESIGN.md §4 C17"),
  "C20": ("exploration",
          "property-based testing (rapid): generated command-name sets x words against a reference rune Levenshtein oracle and a parsed error message",
          "Generated search over command-name sets (visible/hidden, multi-byte, tag and programmatic declaration) and words (random, 1-3 edits of a name, empty argv); every ErrUnknownCommand/ErrCommandRequired message is parsed and compared with an independent edit-distance computation: suggestion must be a nearest visible command within the threshold, otherwise the sorted visible list. Holds on everything explored; not a proof.",
